@@ -13,7 +13,7 @@
 EXTENDS LoadScript
 
 \* typed tree of a script:  <<"leaf", T, v>> | <<"obj", <<<<key, tree>>, ...>>>> | <<"arr", <<tree, ...>>>>
-KeyValueOf(op) == IF "ks" \in DOMAIN op THEN <<"leaf", "str", <<"str", op.ks>>>> ELSE <<"leaf", "i64", IntSmall(op.ki)>>
+KeyValueOf(op) == IF op.op = "attr" THEN <<"leaf", "attrkey", <<"attr", op.ks>>>> ELSE IF "ks" \in DOMAIN op THEN <<"leaf", "str", <<"str", op.ks>>>> ELSE <<"leaf", "i64", IntSmall(op.ki)>>
 
 RECURSIVE TreeOfOp(_), TreesOfOps(_, _, _)
 \* {"op":"base"}: the members written by a base class land in the same object (BaseObject<T>), in place
@@ -22,7 +22,7 @@ TreesOfOps(ops, i, withKeys) ==
   ELSE (IF ops[i].op = "base" THEN TreesOfOps(ops[i].ops, 1, TRUE)
         ELSE IF withKeys THEN <<<<KeyValueOf(ops[i]), TreeOfOp(ops[i])>>>> ELSE <<TreeOfOp(ops[i])>>) \o TreesOfOps(ops, i + 1, withKeys)
 TreeOfOp(op) ==
-  IF op.op \in {"req", "elem"} THEN <<"leaf", op.t, op.v>>
+  IF op.op \in {"req", "elem", "attr"} THEN <<"leaf", op.t, op.v>>
   ELSE IF op.op = "obj" THEN <<"obj", TreesOfOps(op.ops, 1, TRUE)>>
   ELSE <<"arr", TreesOfOps(op.ops, 1, FALSE)>>
 TreeOfRoot(root) ==
